@@ -3,6 +3,8 @@
 import json, sys
 
 CLAIMED = {
+ "C13": ("3/C13", "seeded search over epoch and lock histories with naturally failing statements of every listed kind and injected kernel failures at arbitrary positions (plus GC pre-emption during rollback); snapshot-before = snapshot-after of every live object, the C08 lock model evaluated right after every failed statement, and a twin execution of the same history without the failing statements that must reach bit-identical values and gradients at every backward",
+         "trusts: injected kernel faults are raised in place of the user-facing kernel only (never inside internal view replays); the gradient of the target of a failed in-place update and lingering base links are don't-care as derived from the statement (DESIGN C13)"),
  "C06": ("3/C06", "seeded search over view-heavy DAGs under several contribution schedules (which consumer delivers gradient to the base first) followed by read schedules (order/repetition of .grad reads, drops, GC); every view's gradient compared bit-exactly with the NumPy view chain applied to base.grad, memory sharing checked, pairwise grad aliasing vs data aliasing",
          "trusts: the model's flat-index description of each view (obtained by running the same NumPy call on an index array); only views that were family members before the backward call are judged"),
  "C09": ("3/C09", "seeded search over histories with a shared trunk and several terminals, with backward/clear_graph, in-place updates, re-use and null_grad interleaved before a final backward; outcome must be InvalidBackprop or gradients equal to the tape's cotangents on the versions recorded by the forward pass",
